@@ -259,6 +259,10 @@ func suiteReuse(rn *runner, r *rng, tier string) {
 		tc := &testCase{note: "reuse"}
 		var texts []string
 		var hist []string
+		if cr.chance(1, 2) { // caller-owned destination objects survive from one document to the next
+			tc.ops = append(tc.ops, "mode scratch")
+			hist = append(hist, "S")
+		}
 		for k := 0; k < calls; k++ {
 			cfg := defaultCfg(cr)
 			var text string
@@ -291,7 +295,7 @@ func suiteReuse(rn *runner, r *rng, tier string) {
 			texts = append(texts, text)
 			pn := fmt.Sprintf("p%d", k)
 			tc.ops = append(tc.ops, fmt.Sprintf("parse %s %s %s %s", pn, nd, cp, hx([]byte(text))), "tapehash "+pn)
-			if cr.chance(1, 3) {
+			if cr.chance(2, 3) {
 				tc.ops = append(tc.ops, "owalk "+pn)
 			}
 			if cr.chance(1, 4) { // intervening in-place edit
@@ -318,6 +322,21 @@ func suiteReuse(rn *runner, r *rng, tier string) {
 				prev = st.pjs[strings.Fields(op)[1]]
 			}
 		}
+		// property oracle: the same calls on fresh objects (no reuse argument, fresh destinations) — C15 demands the
+		// same outcome and the same document for every history
+		fresh := newStore()
+		tc.expect = map[int]string{}
+		for k, op := range tc.ops {
+			if op == "mode scratch" {
+				tc.expect[k] = "ok"
+				continue
+			}
+			if strings.HasPrefix(op, "parse ") {
+				nextParse.reuse = nil
+				nextParse.defaultOpts = defaults[k]
+			}
+			tc.expect[k] = fresh.execTimed(op, 30*time.Second)
+		}
 		rn.addPrepared(tc)
 		cls := "hist=" + strings.Join(hist, "")
 		if len(cls) > 12 {
@@ -326,7 +345,7 @@ func suiteReuse(rn *runner, r *rng, tier string) {
 		rn.rep.Distribution[cls]++
 		rn.seen[cls] = true
 	}
-	rn.rep.Rule = "3-10 Parse/ParseND calls on one reused ParsedJson (valid, failing at stage 1 or 2, below/above 8 KiB, copy/no-copy, with intervening edits); each reply must equal the model's, which has no reuse state; distinct = history shape"
+	rn.rep.Rule = "3-10 Parse/ParseND calls on one reused ParsedJson (valid, failing at stage 1 or 2, below/above 8 KiB, copy/no-copy, with intervening edits); each reply must equal the reply of the same call on fresh objects (property oracle) and the model's, which has no reuse state; in half of the cases caller-owned destination objects are reused as well; distinct = history shape"
 }
 
 // C16: copied strings decouple results from the input; Clone is independent
@@ -351,6 +370,9 @@ func suiteAlias(rn *runner, r *rng, tier string) {
 		}
 		h := hx([]byte(text))
 		c := &opsCase{r: cr, tc: &testCase{note: "alias"}, st: newStore(), nd: nd}
+		if cr.chance(1, 3) {
+			c.emit("mode scratch")
+		}
 		// copy mode: scribbling over the input changes nothing — also when the object is a reused one that last
 		// parsed without copying, and when copying is requested by default (no option) rather than explicitly
 		useReuse := cr.chance(1, 2)
